@@ -36,7 +36,7 @@ CODECS = {
 
 
 def plan(tier, seed):
-    return C.plan_counts(tier, 16 * 6000, 16 * 100000)
+    return C.plan_counts(tier, 16 * 12000, 16 * 100000)
 
 
 def any_type(anytag):
